@@ -199,3 +199,68 @@ Example ex_orientation :
   lower_id_to_left Z.ltb (7, 3)%Z = (3, 7)%Z /\ lower_id_to_left Z.ltb (3, 7)%Z = (3, 7)%Z /\
   lower_id_to_left Z.ltb (5, 5)%Z = (5, 5)%Z.
 Proof. vm_compute. repeat split. Qed.
+
+(* ------------------------------------------------------------------------------------ *)
+(* Invariance under re-presentation (C13): order of the pairs, labels of the comparisons,  *)
+(* order of the input tables.  reorder d pi l = map (fun i => nth i l d) pi (Proofs/EMP).  *)
+(* ------------------------------------------------------------------------------------ *)
+From Coq Require Import Permutation.
+From Splinkv Require Import Proofs.EMP.
+
+Theorem C04_estimators_perm_invariant :
+  (forall i v rows rows', Permutation rows rows' -> v <> (-1)%Z ->
+     u_estimate i v rows = u_estimate i v rows' /\ m_estimate i v rows = m_estimate i v rows') /\
+  (forall rows rows' m,
+     (forall c l, In c (md_cmps m) -> In l (mc_levels c) -> lv_val (ml_lv l) <> (-1)%Z) ->
+     Permutation rows rows' ->
+     estimate_u rows m = estimate_u rows' m /\
+     estimate_m_label rows m = estimate_m_label rows' m /\
+     estimate_m_pairs rows m = estimate_m_pairs rows' m).
+Proof. exact (conj estimates_perm_invariant estimators_perm_invariant). Qed.
+Print Assumptions C04_estimators_perm_invariant.
+
+(* column j of the relabelled pairs is column (nth j pi 0) of the original ones; only j in range
+   is needed (no condition on v, pi need not be a permutation) *)
+Theorem C04_estimators_relabel_invariant :
+  forall pi j v rows, (j < length pi)%nat ->
+    frequency j v (map (reorder (-1)%Z pi) rows) = frequency (nth j pi O) v rows /\
+    u_estimate j v (map (reorder (-1)%Z pi) rows) = u_estimate (nth j pi O) v rows /\
+    m_estimate j v (map (reorder (-1)%Z pi) rows) = m_estimate (nth j pi O) v rows.
+Proof. exact estimates_relabel_invariant. Qed.
+Print Assumptions C04_estimators_relabel_invariant.
+
+(* the order in which the input tables are listed is irrelevant to the number of admissible
+   pairs, to calculate_cartesian (both refuse, or both answer with == values) and hence to the
+   prior estimate *)
+Theorem C04_cartesian_table_order_irrelevant :
+  (forall lt ns ns', Permutation ns ns' -> admissible_pairs lt ns = admissible_pairs lt ns') /\
+  (forall lt ns ns', Permutation ns ns' ->
+     match cartesian lt (map (fun n => inject_Z (Z.of_nat n)) ns),
+           cartesian lt (map (fun n => inject_Z (Z.of_nat n)) ns') with
+     | Some c, Some c' => c == c'
+     | None, None => True
+     | _, _ => False
+     end) /\
+  (forall obs recall c c', c == c' ->
+     match prior_estimate obs recall c, prior_estimate obs recall c' with
+     | PriorOk p, PriorOk p' => p == p'
+     | BadRecall, BadRecall | RecallInconsistent, RecallInconsistent => True
+     | _, _ => False
+     end).
+Proof. exact (conj admissible_pairs_perm (conj cartesian_perm prior_estimate_compat)). Qed.
+Print Assumptions C04_cartesian_table_order_irrelevant.
+
+(* the six pairs of ex_rows shuffled and their two columns swapped; tables listed in another order *)
+Definition ex_rows_shuffled : list (list Z) :=
+  [[1; -1]; [2; 0]; [-1; 1]; [2; 1]; [1; 1]; [2; 0]]%Z.
+
+Example ex_representation :
+  map (reorder (-1)%Z [1; 0]%nat) ex_rows_shuffled
+  = [[-1; 1]; [0; 2]; [1; -1]; [1; 2]; [1; 1]; [0; 2]]%Z /\
+  u_estimate 1 2 (map (reorder (-1)%Z [1; 0]%nat) ex_rows_shuffled) = u_estimate 0 2 ex_rows /\
+  u_estimate 1 2 (map (reorder (-1)%Z [1; 0]%nat) ex_rows_shuffled) = Val (3 # 5) /\
+  m_estimate 0 0 (map (reorder (-1)%Z [1; 0]%nat) ex_rows_shuffled) = m_estimate 1 0 ex_rows /\
+  estimate_u ex_rows_shuffled ex_model = estimate_u ex_rows ex_model /\
+  admissible_pairs LinkOnly [2; 3; 4]%nat = admissible_pairs LinkOnly [3; 4; 2]%nat /\
+  option_map Qred (cartesian LinkOnly [2; 3; 4]) = option_map Qred (cartesian LinkOnly [3; 4; 2]).
+Proof. vm_compute. repeat split. Qed.
